@@ -6,6 +6,7 @@ package main
 import (
 	"bytes"
 	"encoding/json"
+	"flag"
 	"fmt"
 	"net"
 	"net/http"
@@ -213,9 +214,12 @@ func allDaemonOrPollers(r *vs.Result) bool {
 	return true
 }
 
+var prop = flag.String("prop", "C01", "property id to report under (C01 or C04: same scenarios, same oracle)")
+
 func main() {
+	flag.Parse()
 	vx.Main(&vx.Harness{
-		Property: "C01", Name: "c01",
+		Property: *prop, Name: "c01",
 		Scenarios: func(tier string) []vx.Scenario {
 			if tier == "thorough" {
 				return []vx.Scenario{
